@@ -2,7 +2,8 @@
 From Coq Require Import List Arith Bool Reals ZArith Floats.
 From Flocq Require Import Core.
 From ET Require Import Model.Scalar Model.Sparse Model.Basic Proofs.SparseBase Proofs.RInst Proofs.BasicProofs
-  Proofs.ScaleRound Proofs.F64Round Proofs.F64Scale.
+  Proofs.ScaleRound Proofs.F64Round Proofs.F64Scale Proofs.F64ScaleEq
+  Generated.KbnGen Proofs.KbnGenProofs.
 Import ListNotations.
 
 (** (G) Canonicalize divides every entry by the compensated sum, indices
@@ -170,8 +171,59 @@ Theorem C04_pow2_example :
   @canon B64 [(0%nat, 1024%R : B64); (1%nat, 3072%R : B64)] = @canon B64 [(0%nat, 1%R : B64); (1%nat, 3%R : B64)].
 Proof. exact canon_pow2_example. Qed.
 
+(** (F64, full strength) when the scaled twin also keeps every entry's sign bit —
+    as multiplication by a power of two does — the canonical forms are EQUAL as
+    lists of floats (zeros and their signs included); rows of a matrix each with
+    its own factor, with or without a substitute pre-trust; vectors; and the
+    scores that Compute derives from them. *)
+Theorem C04_pow2_scaling_equal_F64 :
+  forall (e : Z) (l l2 : list (nat * F64)),
+    Forall2 (scaled_signed e) l l2 ->
+    canon_ok (map snd (vals l)) -> canon_ok (map snd (vals l2)) ->
+    @canon F64 l2 = @canon F64 l.
+Proof. exact canon_pow2_equal_F64. Qed.
+Print Assumptions C04_pow2_scaling_equal_F64.
+
+Theorem C04_pow2_row_scaling_equal_F64 :
+  forall (m m2 : csm F64) (p : option (vec F64)),
+    major m2 = major m -> minor m2 = minor m ->
+    Forall2 row_pow2_signed_ok (rows m) (rows m2) ->
+    (p = None -> Forall (fun r => @canon F64 r <> ErrZeroSum) (rows m)) ->
+    @canon_lt F64 m2 p = @canon_lt F64 m p.
+Proof. exact canon_lt_pow2_equal_F64. Qed.
+Print Assumptions C04_pow2_row_scaling_equal_F64.
+
+Theorem C04_pow2_vector_scaling_equal_F64 :
+  forall (e : Z) (v v2 : vec F64),
+    vdim v2 = vdim v -> Forall2 (scaled_signed e) (vents v) (vents v2) ->
+    canon_ok (map snd (vals (vents v))) -> canon_ok (map snd (vals (vents v2))) ->
+    @canon_tv F64 v2 = @canon_tv F64 v.
+Proof. exact canon_tv_pow2_equal_F64. Qed.
+Print Assumptions C04_pow2_vector_scaling_equal_F64.
+
+Theorem C04_pow2_scaling_same_scores_F64 :
+  forall (fuel : nat) (m m2 : csm F64) (p : option (vec F64)) (pt : vec F64) (a e : F64) (o : opts F64),
+    major m2 = major m -> minor m2 = minor m ->
+    Forall2 row_pow2_signed_ok (rows m) (rows m2) ->
+    (p = None -> Forall (fun r => @canon F64 r <> ErrZeroSum) (rows m)) ->
+    match @canon_lt F64 m2 p with Ok c => Some (compute fuel c pt a e o) | _ => None end =
+    match @canon_lt F64 m p with Ok c => Some (compute fuel c pt a e o) | _ => None end.
+Proof. exact scores_pow2_equal_F64. Qed.
+Print Assumptions C04_pow2_scaling_same_scores_F64.
+
+Theorem C04_scaled_signed_example :
+  Forall2 (scaled_signed 0) [(0%nat, 1%float : F64)] [(0%nat, 1%float : F64)].
+Proof. exact scaled_signed_example. Qed.
+
+(** (source tie) the compensated sum that all of the above is stated over is the one in the source:
+    [Generated/KbnGen.v] is translated from pkg/sparse/util.go on every run. *)
+Theorem C04_kbn_source_is_the_model :
+  kbn_translated = true /\
+  forall (S : ScalarOps) (l : list S), gen_kbn_total l = kbn_total l.
+Proof. exact (conj kbn_translated_ok gen_kbn_total_is_model). Qed.
+Print Assumptions C04_kbn_source_is_the_model.
+
 (** (F) what stays decided per run rather than proved: that the concrete runs
     meet [canon_ok] (the "absent overflow/underflow" clause is a hypothesis
-    here), and the propagation through Compute (which consumes the canonical
-    forms) — the correspondence cases [Scaled] compare the canonical forms of
+    here) — the correspondence cases [Scaled] compare the canonical forms of
     scaled and unscaled inputs, and the scores computed from them, bit for bit. *)
